@@ -126,6 +126,24 @@ class Facts:
                             c["sealed_default"] = True
 
     # ---- inventory ----
+    CONSUMER_RE = __import__("re").compile(r"iter::Iterator(>)?::(fold|sum|product|for_each|count|any|all|position|rposition|max_by|min_by|max_by_key|min_by_key|reduce|try_fold|try_for_each|find|find_map|last|nth)$|iter::traits::accum::(Sum|Product)")
+
+    def loopy(self, f):
+        """the function iterates: a CFG loop, or a call that consumes an iterator (an internal loop)"""
+        k = ("loopy", f.path)
+        c = self.__dict__.setdefault("_loopy", {})
+        if k not in c:
+            import callees
+            import cfg as cfgmod
+            v = cfgmod.Cfg(f).has_loop()
+            if not v:
+                for b, t in f.calls():
+                    if self.CONSUMER_RE.search(callees.strip_all_turbofish(callees.callee_name(t["callee"])) or ""):
+                        v = True
+                        break
+            c[k] = v
+        return c[k]
+
     def helpers(self):
         """{path: set of caller paths} of context-bound helpers: functions that cannot be named from outside the crate, are not
         trait-impl methods or closures, have at least one crate-local call site and no loop.  The evaluator inlines them into
@@ -146,7 +164,7 @@ class Facts:
             if f.path not in callers or not f.d.get("mir"):
                 continue
             try:
-                if cfgmod.Cfg(f).has_loop():
+                if self.loopy(f):
                     continue
             except Exception:
                 continue
